@@ -260,10 +260,16 @@ def check_c19(ctx, prog, tier):
                           'has_move / ' + desc)
         if ent.get('Display') and (desc in ('setup gold', 'play silver step 0', 'play gold step 2') or
                                    (tier != 'quick' and 'Pull' not in desc and 'Push' not in desc and 'captured' not in desc)):
-            nrun += run_entry(ctx, I, ent['Display'],
-                              lambda I_, st, gsv=gsv: [inputs.ref_to(I_, st, 'gs', gsv),
-                                                       Ref(inputs.ref_to(I_, st, 'f', Tok('fmt', 'std::fmt::Formatter')).cell, (), True)],
-                              'Display / ' + desc)
+            # printers may fill their cells by looping over the set bits of a board: follow such loops bit by bit
+            saved_ns = I.no_summary
+            I.no_summary = set(I.no_summary) | {'action::map_bit_board_to_squares'}
+            try:
+                nrun += run_entry(ctx, I, ent['Display'],
+                                  lambda I_, st, gsv=gsv: [inputs.ref_to(I_, st, 'gs', gsv),
+                                                           Ref(inputs.ref_to(I_, st, 'f', Tok('fmt', 'std::fmt::Formatter')).cell, (), True)],
+                                  'Display / ' + desc)
+            finally:
+                I.no_summary = saved_ns
         # offered actions
         acts = []
         if setup:
